@@ -143,6 +143,7 @@ def run(ctx):
     nsnaps, ntorn, sessions_run, reqs, meta, distinct = 0, 0, 0, [], [], set()
     ireqs, imeta = [], []
     nheal, heal_bad = 0, []
+    nshardfail = 0
     plans = []
     for i in range(ctx.pick(3, 9)):
         fmt = ["fb", "npz", "tfrec"][i % 3]
@@ -288,6 +289,27 @@ def run(ctx):
                                    {"plan": sess, "session_index": si, "fail_write": k, "problems": probs[:5]})
                         break
                     shutil.rmtree(work, ignore_errors=True)
+                # ---- … or the k-th shard *file* cannot be written (fb / npz), and the caller skips every example whose write fails
+                # and keeps using the filler to the end of the session (no crash at all)
+                for k in (sorted({1, max(1, len(closes) - 1), len(closes)}) if fmt in ("fb", "npz") and closes else []):
+                    work = ctx.scratch / f"c06_{ci}_{si}_full"
+                    if work.exists(): shutil.rmtree(work)
+                    shutil.copytree(pre_copy, work)
+                    out2 = ctx.scratch / "c06.out2.json"
+                    if out2.exists(): out2.unlink()
+                    arg.write_text(json.dumps(dict(se, root=str(work), snap=str(snaps), base=base, uuid_base=10 * si, nosnap=True, fail_shard=k, swallow=True)))
+                    subprocess.run([PY, str(VERIF / "harness" / "checks" / "c06_writer.py"), str(arg), str(out2)], capture_output=True, text=True, timeout=900)
+                    res2 = json.loads(out2.read_text()) if out2.exists() else {"written": {}, "error": "no result"}
+                    w2 = {int(s_): v for s_, v in res2.get("written", {}).items()}
+                    probs = recover(work, committed, {s_: list(w2.get(s_, [])) for s_ in (0, 1, 2)})
+                    nsnaps += 1; nshardfail += 1
+                    if probs:
+                        ctx.report(dict(sig, kind="error-path-state", at="shard-file-write-fails"),
+                                   f"{fmt} session whose shard file number {k} of {len(closes)} cannot be written (ENOSPC), the caller skipping the failing writes "
+                                   f"({res2.get('swallowed', [])[:1]}, end: {res2.get('error')}): {probs[0]}",
+                                   {"plan": sess, "session_index": si, "fail_shard": k, "problems": probs[:5]})
+                        break
+                    shutil.rmtree(work, ignore_errors=True)
                 shutil.rmtree(pre_copy, ignore_errors=True)
             # ---- correspondence: the observed effect order is accepted by M-CRASH
             reqs.append({"m": "crash", "closed": before["closed"], "docs": before["docs"], "roots": before["roots"], "trace": labels})
@@ -368,7 +390,7 @@ def run(ctx):
                    {"correspondence": "M-TREE: every split merged by a completed session is exact again, from any well-formed store", "theorem": "Sedpack.Tree.C06_next_session_heals",
                     "cases": heal_bad[:2]}, name="corr-heal", nofail=True)
     ctx.cov.update({
-        "crash_states_healed_by_next_session": nheal,
+        "crash_states_healed_by_next_session": nheal, "shard_file_write_failures_with_continuing_caller": nshardfail,
         "installs_compared": ninst, "crash_states_compared_with_model": ncrash,
         "evaluations": nsnaps + ntorn, "distinct_nontrivial": len(distinct), "traces_validated_against_impl": sessions_run - len(corr_bad),
         "crash_snapshots": nsnaps, "torn_variants": ntorn, "sessions": sessions_run,
@@ -377,7 +399,8 @@ def run(ctx):
                 "dataset directory before every open/rename/mkdir/remove under the root, after every rename and after every write_example, each opened by the "
                 "recovery oracle; torn variants truncate every file no reachable document names; a metadata file opened for writing in place is truncated (crash right after the open); "
                 "every other session with renames across directories failing (EXDEV); the documents and order of the observed renames are compared with M-TREE's effect-emitting "
-                "session (multiSessionE) and the reader's enumeration of every after-rename snapshot with the model's crash state; splits first written through sub-directory writers; "
+                "session (multiSessionE) and the reader's enumeration of every after-rename snapshot with the model's crash state; splits first written through sub-directory writers; sessions replayed with the k-th metadata temp file, and (fb/npz) the k-th shard file, failing with ENOSPC — "
+                "the latter with a caller that skips the failing writes and carries on; "
                 "distinct = (format, session kind, sub-directory, continued?)",
         "samples": [{"labels": m[3][:14]} for m in meta[:2]],
         "input_distribution": {"sessions": sessions_run, "snapshots": nsnaps, "torn": ntorn,
